@@ -223,6 +223,12 @@ func orcTrigger(s *orcStep, prop string) string {
 			return "target-inherited-from-base-board"
 		}
 	}
+	if nested && c.Kind == "move" && !nk.Edge && len(nk.Obj) > 1 {
+		if p := pre.findObj(nk.Obj[:len(nk.Obj)-1]); p >= 0 && pre.Objs[p].Inherited {
+			// the landing map of the destination container lies in the base board's AST
+			return "move-into-container-inherited-from-base-board"
+		}
+	}
 	// --- attribute deletes that the API does not implement ----------------------------
 	if c.Kind == "delete" {
 		a := k.Attr
